@@ -93,3 +93,26 @@ pub mod g5 {
         N,
     }
 }
+pub mod g6 {
+    use logos::Logos;
+    // non-ASCII text around the references; a quantifier directly after the last reference
+    #[derive(Logos)]
+    #[logos(subpattern digit = r"[0-9]")]
+    pub enum A {
+        #[regex("€(?&digit)+")]
+        X,
+        #[regex("é(?&digit)é(?&digit)*")]
+        Y,
+        #[regex("[a-z]+")]
+        W,
+    }
+    #[derive(Logos)]
+    pub enum B {
+        #[regex("€(?u:[0-9])+")]
+        X,
+        #[regex("é(?u:[0-9])é(?u:[0-9])*")]
+        Y,
+        #[regex("[a-z]+")]
+        W,
+    }
+}
